@@ -1,6 +1,7 @@
 (* Props/C13.v — C13: status variables, constants and alarms answer as a reference model predicts.
    Theorems only.  Model: Model/EquipData.v; reference: Spec/E5Data.v. *)
 From SG Require Import Base.Prelude Spec.E5Reports Spec.E5Data Model.EquipData Proofs.DataProofs.
+From SG Require Import Gen.Alarms Proofs.AlarmsProofs.
 Open Scope Z_scope.
 
 (* every request and equipment-side change, from any table with unique ids: the reply (requested items in request order,
@@ -51,3 +52,13 @@ Example C13_example :
                     DSetAlarm (IdN 1); DAlarmEnable (IdN 1) true; DClearAlarm (IdN 1); DListEnabled]) =
   [DValues [Some 7; None; Some 5]; DAck 3; DAck 0; DConsts [Some (NInt 100); Some (NInt (-5))]; DNone; DAck 0; DReport 1 (IdN 1); DAlarms [(IdN 1, 1, "t"%string)]].
 Proof. split; [repeat split|]. split; vm_compute; reflexivity. Qed.
+
+(* set_alarm / clear_alarm as the code has them: the two methods are read statement by statement on every run (harness/gen_alarms.py ->
+   Gen/Alarms.v: unknown id raises; nothing to do when the alarm is in that state already; the flag is changed; THEN the S5F1 goes out if the
+   alarm is enabled - with the set bit or without; the collection event).  Carried out on the model's alarm table these sequences are the
+   model's steps (alarm codes without bit 8, as the library documents them) - in particular the order of D63: the state first, then the report. *)
+Theorem C13_alarm_code_is_model : forall t k,
+  (forall a, rlookup k (alarms t) = Some a -> (0 <= al_code a < 128)%Z) ->
+  ed_step t (DSetAlarm k) = run_alarm set_alarm_ops t k /\ ed_step t (DClearAlarm k) = run_alarm clear_alarm_ops t k.
+Proof. exact set_alarm_code_is_model. Qed.
+Print Assumptions C13_alarm_code_is_model.
